@@ -255,7 +255,7 @@ def gen_cases(ck, decl, rng):
     if decl.form == 'cdef':
         for t in decl.sets[0]:
             for _ in range(ck.pick(4, 10)):
-                a = valid_arg_for_type(t, rng) if rng.random() < 0.7 else rng.choice(INT_ARGS if c34ref.NUM[t][0] == 'int' else INT_ARGS[:8] + FLT_ARGS[:4])
+                a = valid_arg_for_type(t, rng) if rng.random() < 0.7 else rng.choice(INT_ARGS if c34ref.NUM[t][0] == 'int' else INT_ARGS[:8] + (FLT_ARGS[2:4] if c34ref.NUM[t][0] == 'complex' else FLT_ARGS[:4]))
                 cases.append({'f': decl.caller(t), 'a': '(%s,)' % a, 't': 'cdef-static/%s' % decl.cat, 'd': decl.n, 'mode': 'static'})
         return cases
     for a in args_for(decl, rng, nargs):
@@ -306,6 +306,7 @@ def eval_args(text):
 
 
 KEY_PARTIAL = 'dispatch:int:overflow:non-total-type-order-prefers-type-that-cannot-hold-value'
+KEY_PARTIAL_FLOAT = 'dispatch:float-or-complex:non-total-type-order-prefers-smaller-type'
 KEY_SIGNED = 'dispatch:int:overflow:signed-preferred-value-fits-only-unsigned-type-of-highest-rank'
 
 
@@ -326,6 +327,10 @@ class _Num:
 
 class _Cplx(_Num):
     def __lt__(self, other):
+        if self.total:
+            if getattr(other, 'is_numeric', False):
+                return (self.rank, self.signed) > (other.rank, other.signed)
+            return False
         if isinstance(other, _Cplx):
             return self.rank > other.rank       # real_type < other.real_type
         return False
@@ -342,13 +347,17 @@ class _Obj:
 
 
 def preferred_int(S, total):
-    """the integer specialisation the dispatcher tests for first: specialised types sorted (list.sort with the
-    type ordering), first type whose Python type name is 'int'"""
+    return preferred(S, total, 'int')
+
+
+def preferred(S, total, kind):
+    """the specialisation of one Python type name (int / float / complex) the dispatcher tests for: specialised types
+    sorted (list.sort with the type ordering), first type of that kind"""
     objs = []
     for t in S:
         if t in c34ref.NUM:
-            kind, size, signed = c34ref.NUM[t]
-            if kind == 'complex':
+            tkind, size, signed = c34ref.NUM[t]
+            if tkind == 'complex':
                 objs.append(_Cplx(t, c34ref.RANK[t] - 2 + 0.5, 1, total))
             else:
                 objs.append(_Num(t, c34ref.RANK[t], 1 if signed else 0, total))
@@ -356,7 +365,7 @@ def preferred_int(S, total):
             objs.append(_Obj(t))
     objs.sort()
     for o in objs:
-        if o.name in c34ref.NUM and c34ref.NUM[o.name][0] == 'int':
+        if o.name in c34ref.NUM and c34ref.NUM[o.name][0] == kind:
             return o.name
     return None
 
@@ -438,10 +447,25 @@ def judge(decl, case, exp, got):
         if t not in decl.sets[p]:
             return 'dispatch:type-not-in-fused-set'
         if t not in tags_ok:
+            k = c34ref.akind(a)
+            if k in ('float', 'complex') and preferred(decl.sets[p], False, k) == t and preferred(decl.sets[p], True, k) in tags_ok:
+                return KEY_PARTIAL_FLOAT
             return 'dispatch:%s:%s:arg=%s:unrepresentable-or-undocumented-choice:%s' % (
                 decl.form, decl.cat, c34ref.akind(a), 'exp-' + ek.split(':')[0])
     # values
     for (p, a), vs in zip(zip(decl.params, args), vals):
+        t = chosen[p]
+        if t in c34ref.NUM and c34ref.NUM[t][0] == 'int' and c34ref.akind(a) in ('float', 'npfloat', 'complex', 'npcomplex'):
+            continue        # a float offered to a C integer: what the conversion does is C05's property
+        if t in c34ref.NUM and c34ref.NUM[t][0] == 'complex' and vs[0] == 'complex':
+            try:
+                want_z = c34ref.value(decl.cat, t, a)
+                got_z = complex(vs[1].replace('(', '').replace(')', '')) if 'nan' not in vs[1] and 'inf' not in vs[1] else None
+            except Exception:
+                got_z = None
+                want_z = None
+            if got_z is not None and want_z == got_z:
+                continue    # signed zeros of C complex round trips belong to C08
         try:
             want = vsig.sig(c34ref.value(decl.cat, chosen[p], a))
         except Exception as e:
